@@ -183,7 +183,7 @@ impl crate::platform::Arch for ElfX86_64 {
                         0x8b => {
                             return Some(Relaxation {
                                 kind: RelaxationKind::RexMovIndirectToAbsolute(inst_offset),
-                                rel_info: rel_info_from_type!(object::elf::R_X86_64_32),
+                                rel_info: rel_info_from_type!(object::elf::R_X86_64_32S),
                                 mandatory: output_kind.is_static_executable(),
                             });
                         }
@@ -191,7 +191,7 @@ impl crate::platform::Arch for ElfX86_64 {
                         0x2b => {
                             return Some(Relaxation {
                                 kind: RelaxationKind::RexSubIndirectToAbsolute(inst_offset),
-                                rel_info: rel_info_from_type!(object::elf::R_X86_64_32),
+                                rel_info: rel_info_from_type!(object::elf::R_X86_64_32S),
                                 mandatory: output_kind.is_static_executable(),
                             });
                         }
@@ -199,7 +199,7 @@ impl crate::platform::Arch for ElfX86_64 {
                         0x3b => {
                             return Some(Relaxation {
                                 kind: RelaxationKind::RexCmpIndirectToAbsolute(inst_offset),
-                                rel_info: rel_info_from_type!(object::elf::R_X86_64_32),
+                                rel_info: rel_info_from_type!(object::elf::R_X86_64_32S),
                                 mandatory: output_kind.is_static_executable(),
                             });
                         }
